@@ -103,6 +103,9 @@ func (c *Check) Ob(rule, construct string, ok bool, pos, detail string) {
 	c.seenOblig[rule+"\x00"+construct] = true
 	if ok {
 		c.discharged++
+		if os.Getenv("TLVERIF_VERBOSE") != "" {
+			fmt.Fprintf(os.Stderr, "ok   %s: %s [%s] — %s\n", rule, construct, pos, detail)
+		}
 		if c.sampleSeen[rule] < 2 {
 			c.sampleSeen[rule]++
 			c.samples = append(c.samples, fmt.Sprintf("%s: %s — %s", rule, construct, detail))
